@@ -289,3 +289,81 @@ def container_history(kind, ops):
             e["bx"] = blocks(x); e["by"] = blocks(y)
             ev.append(e)
     return {"kind": kind, "events": ev}
+
+
+# ------------------------------------------------------------------ C11 builder histories
+FKEY = 1000000
+
+
+def _enc_key(k):
+    return FKEY if k is None else int(k)
+
+
+def _dump_nodes(f):
+    out = []
+    for key, node, t in f:
+        if t == "atom":
+            det = 1 if node.probability is None else (2 if node.probability is False else 0)
+            out.append({"t": "atom", "ch": [], "id": str(node.identifier), "det": det})
+        else:
+            out.append({"t": t, "ch": [_enc_key(c) for c in node.children], "id": "", "det": 0})
+    return out
+
+
+def builder_history(calls, opts=None, cls="LogicFormula"):
+    """Execute a history of builder calls on a real LogicFormula; record returned keys and node tables."""
+    from problog import formula as F
+    from problog.logic import Term
+    f = getattr(F, cls)(**(opts or {}))
+    rets = {}
+    out = []
+
+    def key_of(ref):
+        if ref["k"] == "T":
+            return f.TRUE
+        if ref["k"] == "F":
+            return f.FALSE
+        k = rets[ref["i"]]
+        return k if ref["s"] == 1 else f.negate(k)
+
+    for i, c in enumerate(calls, start=1):
+        c = dict(c)
+        op = c["op"]
+        ret = -FKEY
+        if op == "atom":
+            prob = {0: 0.5, 1: None, 2: False}[c["det"]]
+            ret = _enc_key(f.add_atom(c["id"], prob, name=Term(c["id"]) if c.get("named") else None))
+            rets[i] = None if ret == FKEY else ret
+        elif op == "and":
+            r = f.add_and([key_of(x) for x in c["refs"]], name=Term(c["name"]) if c.get("name") else None)
+            rets[i] = r
+            ret = _enc_key(r)
+        elif op == "or":
+            r = f.add_or([key_of(x) for x in c["refs"]], readonly=not c.get("mutable"),
+                         name=Term(c["name"]) if c.get("name") else None)
+            rets[i] = r
+            ret = _enc_key(r)
+        elif op == "not":
+            # refs holds the already-negated reference; the real call negates the positive one
+            x = c["refs"][0]
+            pos = {"k": x["k"], "i": x.get("i", 0), "s": 1 - x.get("s", 1)} if x["k"] == "c" else \
+                ({"k": "F"} if x["k"] == "T" else {"k": "T"})
+            r = f.negate(key_of(pos))
+            rets[i] = r
+            ret = _enc_key(r)
+        elif op == "disjunct":
+            tk = rets[c["target"]]
+            comp = key_of(c["refs"][0])
+            skipped = 0
+            if tk is None or tk < 0 or (tk > 0 and type(f.get_node(tk)).__name__ != "disj"):
+                skipped = 1      # not an updatable node in the real formula: the engine never does this
+            else:
+                f.add_disjunct(tk, comp)
+            c["skipped"] = skipped
+        elif op == "name":
+            k = key_of(c["refs"][0])
+            f.add_name(Term(c["name"]), k, c.get("label", "query"))
+        c["ret"] = ret
+        c["nodes"] = _dump_nodes(f)
+        out.append(c)
+    return {"calls": out}
